@@ -1074,11 +1074,11 @@ func (p *printer) expr1(expr ast.Expr, prec1, depth int) {
 			p.print(token.RBRACE)
 		}
 	case *ast.ErrWrapExpr:
-		p.expr(x.X)
+		p.expr1(x.X, token.HighestPrec, depth) // a postfix operator binds tighter than any unary or binary one
 		p.print(x.Tok)
 		if x.Default != nil {
 			p.print(token.COLON)
-			p.expr(x.Default)
+			p.expr1(x.Default, token.UnaryPrec, depth) // the parser reads the default as a unary expression
 		}
 	case *ast.LambdaExpr:
 		if x.LhsHasParen {
